@@ -29,7 +29,8 @@ def run(tier):
                  ("tcp/FollowerSweep", "never_sweep"), ("tcp/FollowerSweep", "strict_lt"),
                  ("tcp/FollowerImpl", "mut_limit_client_only"), ("tcp/FollowerImpl", "mut_finish_any_fin"),
                  ("tcp/FollowerImpl", "mut_state_frozen_after_fin"), ("tcp/FollowerImpl", "mut_sweep_by_create_time"),
-                 ("tcp/FollowerImpl", "mut_announce_on_any_syn"), ("tcp/FollowerImpl", "reach")):
+                 ("tcp/FollowerImpl", "mut_announce_on_any_syn"), ("tcp/FollowerImpl", "mut_ignore_before_state"),
+                 ("tcp/FollowerImpl", "reach")):
         vlib.expect_violation(m, "%s_%s.cfg" % (m.split("/")[1], c), timeout=300)
         refuted.append(c)
     sim, g = vlib.tlc_generate("tcp/FollowerGen", "FollowerGen_sim.cfg", simulate=500 if quick else 12000, depth=45,
@@ -40,6 +41,7 @@ def run(tier):
     scen = list(u.values())[: (8000 if quick else 200000)]
     for i, s in enumerate(scen):
         s["mode"] = i % 6
+        s["ignore"] = ["none", "none", "client", "none", "server", "none", "none"][i % 7]      # Stream::ignore_client_data / ignore_server_data
     p = vlib.Pipeline(PROP, "tcp_follower", "tcp/FollowerTrace")
     chunk = 20000
     for i in range(0, len(scen), chunk):
